@@ -12,9 +12,9 @@ cd $WT
 # no `git stash` here: the stash is shared by all worktrees of /repo
 git diff -- src/ > /tmp/seed-$ID.now.diff
 git checkout -- src/
-BASE_DEMO=$(cargo test --offline --test demo_seeded 2>&1 | grep -E "^test result" | head -1)
+BASE_DEMO=$(cargo test --offline --features zlib,lz4,zstd,rayon --test demo_seeded 2>&1 | grep -E "^test result" | head -1)
 git apply /tmp/seed-$ID.now.diff
-WITH_DEMO=$(cargo test --offline --test demo_seeded 2>&1 | grep -E "^test result" | head -1)
+WITH_DEMO=$(cargo test --offline --features zlib,lz4,zstd,rayon --test demo_seeded 2>&1 | grep -E "^test result" | head -1)
 mv tests/demo_seeded.rs /tmp/demo_seeded.$ID.rs
 SUITE=$(cargo test --offline --features zlib,lz4,zstd,rayon 2>&1 | grep -E "^test result" | tr '\n' ' ')
 mv /tmp/demo_seeded.$ID.rs tests/demo_seeded.rs
